@@ -183,8 +183,8 @@ Proof.
   - (* assignment *) apply (assignment_sound num_text is_negative f p n e st Hw Hst).
   - (* PRINT *)
     cbn [Sem.exec]. cbn [wt_stmt] in Hw.
-    pose proof (print_items_sound args st (screen st) false Hw Hst) as P.
-    destruct (print_items num_text is_negative args st (screen st) false) as [[[d sk] st1]|[[[x q] d] st1]]; cbn; [exact P|exact (proj1 P)].
+    pose proof (print_items_sound args st (scr (screen st)) false Hw Hst) as P.
+    destruct (print_items num_text is_negative args st (scr (screen st)) false) as [[[d sk] st1]|[[[x q] d] st1]]; cbn; [exact P|exact (proj1 P)].
   - (* IF *)
     cbn [wt_stmt] in Hw. rewrite !wt_block_fix in Hw.
     apply andb_true_iff in Hw. destruct Hw as [Hw Hels]. apply andb_true_iff in Hw. destruct Hw as [Hw Helifs].
